@@ -18,11 +18,20 @@ Boolean n-d array (`Mask = NDA Bool`), following `discretisedfield/field.py`:
   axis of length 1), a callable evaluated at the cell centres, or `'norm'`
   (`~np.isclose(norm, 0)`, absolute threshold 1e-8, modelled on squared lengths).
 
+* results built without `valid=` (`mean`, `integrate`, the FFT family, the temporary field of
+  `f << 3`) are valid everywhere on their own shape (`FreshOp`, node `fresh`);
+* `grad`, `div`, `curl`, `laplace`, `sum`, `<<`-stacking, ufuncs with several field inputs and the
+  reflected operators are the compositions `field.py` builds (`gradProg` … `rcrossProg`);
+* a scalar Boolean field handed over as `valid=` (what `resample` does) is looked up at the cell
+  centres, nearest cell per axis (`MSpec.lookup`).
+
 A program (`Prog`) is an expression tree over input fields; `eval` is the code-shaped evaluator
 (whole arrays, every node materialises its own buffer), `spec` the index-level reading (value
-at result cell `j` pulled back through the index maps to the leaves).  `evalS` threads an
-abstract store of validity buffers: every node except unary plus allocates (ownership).
-No import outside the model.
+at result cell `j` pulled back through the index maps to the leaves), `wf` the acceptance check.
+`evalS` threads an abstract store of validity buffers: every node except unary plus allocates
+(ownership).  `Sess` / `Stmt` are sessions: histories of statements over variables with IN-PLACE
+changes (`x.valid = …`, `x.valid[idx] = v`, `x.rotate90(inplace=True)`), every statement reading its
+operands' masks from the store.  No import outside the model.
 -/
 namespace DFV.C08
 open DFV
@@ -153,6 +162,36 @@ def MapOp.apply {α} (op : MapOp) (x : NDA α) (fill : α) : NDA α :=
   | .pad m w => gather x ((MapOp.pad m w).shape x.shape) ((MapOp.pad m w).src x.shape) fill
   | .resample n => gather x ((MapOp.resample n).shape x.shape) ((MapOp.resample n).src x.shape) fill
 
+/-! ## results on a new cell set (`mean`, `integrate`, the FFT family, temporary fields) -/
+
+/-- operations whose result is built WITHOUT `valid=`: the constructor's default `valid=True`
+makes every cell of the result valid, whatever the operand's mask was -/
+inductive FreshOp where
+  /-- same cells: `Field(self.mesh, nvdim=…, value=other)` (the temporary field of `f << 3`),
+  `integrate(direction, cumulative=True)`, `fftn`, `ifftn` -/
+  | same
+  /-- `mean(direction=…)` / `integrate(direction=…)`: `mesh.sel(d)` for every named direction -/
+  | reduce (axes : List Nat)
+  /-- `rfftn`: the last axis keeps `n // 2 + 1` frequencies -/
+  | rfft
+  deriving Repr, Inhabited
+
+namespace FreshOp
+
+/-- accepted on an operand of shape `s` (a field is returned) -/
+def ok : FreshOp → List Nat → Bool
+  | .same, _ => true
+  | .reduce axes, s => axes.all (fun a => decide (a < s.length)) && decide axes.Nodup && decide (axes.length < s.length)
+  | .rfft, s => decide (0 < s.length)
+
+/-- cells per axis of the result's mesh -/
+def shape : FreshOp → List Nat → List Nat
+  | .same, s => s
+  | .reduce axes, s => ((List.range s.length).filter fun b => !axes.contains b).map fun b => s.getD b 0
+  | .rfft, s => tab s.length fun b => if b + 1 = s.length then s.getD b 0 / 2 + 1 else s.getD b 0
+
+end FreshOp
+
 /-! ## file round trips -/
 
 /-- `valid.astype(int).transpose((2,1,0)).reshape(-1)` (`Field.to_vtk`): integers, first index
@@ -182,6 +221,11 @@ inductive MSpec where
   | cells (g : List Nat → Bool)
   /-- `'norm'`: squared length of the stored value of every cell -/
   | norm (sq : NDA Rat)
+  /-- a scalar field of Booleans on another mesh (what `resample` hands over): looked up at the
+  cell centres with `to_xarray().sel(..., method="nearest")`.  `inside`: the receiving region lies
+  in the field's region; `cs b k` = centre of the field's cell `k` along axis `b`, `xs b j` =
+  centre of the receiving mesh's cell `j` along axis `b` -/
+  | lookup (src : Mask) (inside : Bool) (cs xs : Nat → Nat → Rat)
   /-- any other string / unsupported type -/
   | bad
 
@@ -197,6 +241,11 @@ def bcastOk (s t : List Nat) : Bool :=
 def bcastIdx (s t j : List Nat) : List Nat :=
   tab s.length fun k => if s.getD k 0 = 1 then 0 else j.getD (k + (t.length - s.length)) 0
 
+/-- cell of a field with `s` cells per axis and centres `cs` nearest to the centre of cell `j`
+of a mesh with centres `xs` (axis by axis) -/
+def lookupIdx (s : List Nat) (cs xs : Nat → Nat → Rat) (j : List Nat) : List Nat :=
+  tab s.length fun b => nearestUpTo (cs b) (xs b (j.getD b 0)) (s.getD b 0 - 1)
+
 /-- `Field.valid.setter` + `_as_array(valid, mesh, nvdim=1, dtype=bool)[..., 0]` for a mesh with
 `n` cells per axis: `np.full` for numbers, a copy for an array of shape `n`, broadcasting for
 an array with a trailing axis of length 1, errors otherwise. -/
@@ -210,7 +259,14 @@ def setMask (n : List Nat) : MSpec → M Mask
     else .ok (own ⟨n, fun j => decide (a.get (bcastIdx a.shape (n ++ [1]) (j ++ [0])) ≠ 0)⟩)
   | .cells g => .ok (own ⟨n, g⟩)
   | .norm sq => .ok (own ⟨n, fun j => decide (atol * atol < sq.get j)⟩)
+  | .lookup src inside cs xs =>
+    if !inside then .error .value
+    else if src.shape.length ≠ n.length then .error .value
+    else .ok (own ⟨n, fun j => src.get (lookupIdx src.shape cs xs j)⟩)
   | .bad => .error .type
+
+/-- a Boolean array seen as the numbers NumPy converts it from (`True` = 1, `False` = 0) -/
+def asArr (m : Mask) : NDA Rat := m.map fun b => if b then 1 else 0
 
 /-! ## the setter at field level -/
 
@@ -261,6 +317,8 @@ inductive Prog where
   | hdf5 (p : Prog)
   /-- `g = <p>; g.valid = spec` -/
   | setv (s : MSpec) (p : Prog)
+  /-- a field built from `p` without `valid=` (`mean`, `integrate`, `fftn`, …, `Field(mesh, value=3)`) -/
+  | fresh (k : FreshOp) (p : Prog)
 
 /-- code-shaped evaluation: every node transforms the whole mask array as the code does and
 stores it through the setter (`own`) -/
@@ -298,6 +356,10 @@ def eval (env : Nat → Mask) : Prog → M Mask
     match eval env p with
     | .error e => .error e
     | .ok m => setMask m.shape s
+  | .fresh k p =>
+    match eval env p with
+    | .error e => .error e
+    | .ok m => if k.ok m.shape then setMask (k.shape m.shape) (.const 1) else .error .value
 
 /-- shape of the result (total; meaningful when `eval` succeeds) -/
 def shapeOf (env : Nat → Mask) : Prog → List Nat
@@ -310,6 +372,7 @@ def shapeOf (env : Nat → Mask) : Prog → List Nat
   | .vtk p => shapeOf env p
   | .hdf5 p => shapeOf env p
   | .setv _ p => shapeOf env p
+  | .fresh k p => k.shape (shapeOf env p)
 
 /-- the setter's result at cell `j`, read off the specification -/
 def specMask (n : List Nat) : MSpec → List Nat → Bool
@@ -320,6 +383,7 @@ def specMask (n : List Nat) : MSpec → List Nat → Bool
     else decide (a.get (bcastIdx a.shape (n ++ [1]) (j ++ [0])) ≠ 0)
   | .cells g, j => g j
   | .norm sq, j => decide (atol * atol < sq.get j)
+  | .lookup src _ cs xs, j => src.get (lookupIdx src.shape cs xs j)
   | .bad, _ => false
 
 /-- index-level reading: validity of result cell `j`, pulled back to the leaves -/
@@ -336,6 +400,7 @@ def spec (env : Nat → Mask) : Prog → List Nat → Bool
   | .vtk p, j => spec env p j
   | .hdf5 p, j => spec env p j
   | .setv s p, j => specMask (shapeOf env p) s j
+  | .fresh _ _, _ => true
 
 /-- programs without a setter node -/
 def setterFree : Prog → Bool
@@ -348,6 +413,7 @@ def setterFree : Prog → Bool
   | .vtk p => setterFree p
   | .hdf5 p => setterFree p
   | .setv _ _ => false
+  | .fresh _ p => setterFree p
 
 /-- the leaf cells a result cell depends on (`none`: the cell was filled by constant padding) -/
 def deps (env : Nat → Mask) : Prog → List Nat → Option (List (Nat × List Nat))
@@ -366,6 +432,7 @@ def deps (env : Nat → Mask) : Prog → List Nat → Option (List (Nat × List 
   | .vtk p, j => deps env p j
   | .hdf5 p, j => deps env p j
   | .setv _ _, _ => none
+  | .fresh _ _, _ => some []
 
 /-! ## ownership: an abstract store of validity buffers -/
 
@@ -438,8 +505,214 @@ def evalS (env : Nat → Mask) (addr : Nat → Nat) : Prog → Store → M (Nat 
         -- `g.valid = spec` on a freshly built `g` replaces g's buffer; on an input field
         -- (or `+f`) it replaces THAT field's buffer reference: the old buffer is untouched
         .ok (r.2.length, r.2 ++ [m.toList])
+  | .fresh k p, st =>
+    match evalS env addr p st with
+    | .error e => .error e
+    | .ok r =>
+      match eval env (.fresh k p) with
+      | .error e => .error e
+      | .ok m => .ok (r.2.length, r.2 ++ [m.toList])
 
 /-- write-through probe: `result.valid[k] = v` -/
 def write (st : Store) (a k : Nat) (v : Bool) : Store := st.set a ((st.getD a []).set k v)
+
+/-! ## compound operations, as `field.py` composes them from the elementary ones -/
+
+/-- `((acc ∘ x₀) ∘ x₁) ∘ …` — the loop `result = result << d` / the additions of `sum` -/
+def chainF (acc : Prog) : List Prog → Prog
+  | [] => acc
+  | x :: xs => chainF (.binF acc x) xs
+
+/-- Python's `sum(xs)`: `0 + x₀ + x₁ + …` (`0 + x₀` is `x₀.__radd__(0)`, a number operand) -/
+def sumProg : List Prog → Prog
+  | [] => .leaf 0
+  | x :: xs => chainF (.binC x) xs
+
+/-- `result = xs[0]; for d in xs[1:]: result = result << d` -/
+def stackProg : List Prog → Prog
+  | [] => .leaf 0
+  | x :: xs => chainF x xs
+
+/-- `__array_ufunc__`: `np.logical_and.reduce([x.valid for x in inputs if isinstance(x, Field)])`
+handed to the constructor -/
+def ufuncProg : List Prog → Prog
+  | [] => .leaf 0
+  | x :: xs => chainF (.un x) xs
+
+/-- `grad`: `[self.diff(dim) for dim in dims]` stacked (`nd` spatial directions) -/
+def gradProg (nd : Nat) (p : Prog) : Prog := stackProg (tab nd fun _ => .un p)
+
+/-- `div`: `sum(getattr(self, vdim).diff(dim(vdim)) for vdim in self.vdims)` (`nv` components) -/
+def divProg (nv : Nat) (p : Prog) : Prog := sumProg (tab nv fun _ => .un (.un p))
+
+/-- `curl`: three differences of derivatives of components, stacked -/
+def curlProg (p : Prog) : Prog := stackProg (tab 3 fun _ => .binF (.un (.un p)) (.un (.un p)))
+
+/-- `laplace`: per component the sum of the second derivatives over the `nd` directions, stacked -/
+def laplaceProg (nd nv : Nat) (p : Prog) : Prog :=
+  if nv = 1 then stackProg [sumProg (tab nd fun _ => .un p)]
+  else stackProg (tab nv fun _ => sumProg (tab nd fun _ => .un (.un p)))
+
+/-- `f << 3`, `f << (1, 2)`: `self << Field(self.mesh, nvdim=…, value=other)` -/
+def lshiftConstProg (p : Prog) : Prog := .binF p (.fresh .same p)
+
+/-- `3 << f`: `Field(self.mesh, nvdim=…, value=other) << self` -/
+def rlshiftConstProg (p : Prog) : Prog := .binF (.fresh .same p) p
+
+/-- `other - f` (`__rsub__`): `-self + other` -/
+def rsubProg (p : Prog) : Prog := .binC (.un p)
+
+/-- `other & f` (`__rand__`): `-self.cross(other)` -/
+def rcrossProg (p : Prog) : Prog := .un (.binC p)
+
+/-- `padded[region of the original field]` / the `out[slices]` of `diff` on a periodic mesh: the
+block of the original cells inside the array padded by `w` -/
+def unpad (w : List (Nat × Nat)) (s : List Nat) : MapOp :=
+  .crop (tab s.length fun b => (w.getD b (0, 0)).1) (tab s.length fun b => (w.getD b (0, 0)).1 + s.getD b 0)
+
+/-! ## acceptance -/
+
+/-- the setter accepts the argument for a mesh with `n` cells per axis -/
+def MSpec.ok (n : List Nat) : MSpec → Bool
+  | .none => true
+  | .const _ => true
+  | .arr a => decide (a.shape = n) || (decide (a.shape.getLast? = some 1) && bcastOk a.shape (n ++ [1]))
+  | .cells _ => true
+  | .norm _ => true
+  | .lookup src inside _ _ => inside && decide (src.shape.length = n.length)
+  | .bad => false
+
+/-- well-formed program: shapes of combined fields agree, every mapping operation is applicable
+to the shape it receives, VTK only for three dimensions, setter arguments acceptable -/
+def wf (env : Nat → Mask) : Prog → Bool
+  | .leaf _ => true
+  | .pos p => wf env p
+  | .un p => wf env p
+  | .binC p => wf env p
+  | .binF p q => wf env p && wf env q && decide (shapeOf env p = shapeOf env q)
+  | .map op p => wf env p && op.ok (shapeOf env p)
+  | .vtk p => wf env p && decide ((shapeOf env p).length = 3)
+  | .hdf5 p => wf env p
+  | .setv s p => wf env p && s.ok (shapeOf env p)
+  | .fresh k p => wf env p && k.ok (shapeOf env p)
+
+/-- every input the program names exists (`leaf k` with `k < n`) -/
+def leavesLt (n : Nat) : Prog → Bool
+  | .leaf k => decide (k < n)
+  | .pos p => leavesLt n p
+  | .un p => leavesLt n p
+  | .binC p => leavesLt n p
+  | .binF p q => leavesLt n p && leavesLt n q
+  | .map _ p => leavesLt n p
+  | .vtk p => leavesLt n p
+  | .hdf5 p => leavesLt n p
+  | .setv _ p => leavesLt n p
+  | .fresh _ p => leavesLt n p
+
+/-- `p` with every input `k` replaced by the program `σ k` (inlining `x_k = σ k`) -/
+def Prog.subst (σ : Nat → Prog) : Prog → Prog
+  | .leaf k => σ k
+  | .pos p => .pos (p.subst σ)
+  | .un p => .un (p.subst σ)
+  | .binC p => .binC (p.subst σ)
+  | .binF p q => .binF (p.subst σ) (q.subst σ)
+  | .map op p => .map op (p.subst σ)
+  | .vtk p => .vtk (p.subst σ)
+  | .hdf5 p => .hdf5 (p.subst σ)
+  | .setv s p => .setv s (p.subst σ)
+  | .fresh k p => .fresh k (p.subst σ)
+
+/-! ## sessions: statements with in-place changes
+
+Variables are numbered in order of creation.  A variable names an OBJECT (`+f` gives a second
+name for the same object); an object holds a reference to the buffer of its mask and the shape;
+the store maps addresses to buffers.  Every statement reads the masks of its operands FROM THE
+STORE as it is at that moment. -/
+
+structure Sess where
+  /-- variable ↦ object -/
+  vars : List Nat
+  /-- object ↦ (address of its mask buffer, shape) -/
+  objs : List (Nat × List Nat)
+  store : Store
+
+inductive Stmt where
+  /-- `x_new = <expression over the existing variables>` (leaf `k` = variable `k`) -/
+  | build (p : Prog)
+  /-- `x_i.valid = spec` on an existing field -/
+  | assign (i : Nat) (s : MSpec)
+  /-- `x_i.rotate90(ax1, ax2, k, inplace=True)` -/
+  | rotI (i a b : Nat) (k : Int)
+  /-- `x_i.valid[idx] = v` (write into the buffer; `pos` = C-order position of `idx`) -/
+  | poke (i pos : Nat) (v : Bool)
+
+namespace Sess
+
+def objOf (st : Sess) (i : Nat) : Nat := st.vars.getD i 0
+def addrOf (st : Sess) (i : Nat) : Nat := (st.objs.getD (st.objOf i) (0, [])).1
+def shapeOfVar (st : Sess) (i : Nat) : List Nat := (st.objs.getD (st.objOf i) (0, [])).2
+
+/-- the mask of variable `i` as the store has it now -/
+def mask (st : Sess) (i : Nat) : Mask := NDA.ofList (st.shapeOfVar i) (st.store.getD (st.addrOf i) []) false
+
+/-- a session with the given input fields: variable `k` = object `k` = buffer `k` -/
+def init (leaves : List Mask) : Sess :=
+  { vars := List.range leaves.length,
+    objs := (List.range leaves.length).map fun k => (k, (leaves.getD k (NDA.const [] false)).shape),
+    store := leaves.map NDA.toList }
+
+/-- one statement -/
+def step (st : Sess) : Stmt → M Sess
+  | .build p =>
+    if !leavesLt st.vars.length p then .error .index
+    else
+    match eval st.mask p with
+    | .error e => .error e
+    | .ok m =>
+      match aliasOf p with
+      | some k => .ok { st with vars := st.vars ++ [st.objOf k] }
+      | none =>
+        .ok { vars := st.vars ++ [st.objs.length], objs := st.objs ++ [(st.store.length, m.shape)],
+              store := st.store ++ [m.toList] }
+  | .assign i s =>
+    if st.vars.length ≤ i then .error .index
+    else
+      match setMask (st.shapeOfVar i) s with
+      | .error e => .error e
+      | .ok m =>
+        .ok { st with objs := st.objs.set (st.objOf i) (st.store.length, m.shape),
+                      store := st.store ++ [m.toList] }
+  | .rotI i a b k =>
+    if st.vars.length ≤ i then .error .index
+    else if (MapOp.rot a b k).ok (st.shapeOfVar i) then
+      .ok { st with objs := st.objs.set (st.objOf i)
+                      (st.store.length, ((MapOp.rot a b k).apply (st.mask i) false).shape),
+                    store := st.store ++ [(own ((MapOp.rot a b k).apply (st.mask i) false)).toList] }
+    else .error .value
+  | .poke i pos v =>
+    if st.vars.length ≤ i then .error .index
+    else .ok { st with store := write st.store (st.addrOf i) pos v }
+
+/-- a history of statements (stops at the first error) -/
+def run (st : Sess) : List Stmt → M Sess
+  | [] => .ok st
+  | s :: rest =>
+    match st.step s with
+    | .error e => .error e
+    | .ok st' => run st' rest
+
+end Sess
+
+/-- the variable whose mask the statement changes in place (`none`: it only builds a new field) -/
+def Stmt.target : Stmt → Option Nat
+  | .build _ => none
+  | .assign i _ => some i
+  | .rotI i _ _ _ => some i
+  | .poke i _ _ => some i
+
+/-- the statement gives a second name to an existing object (`y = +x`) -/
+def Stmt.aliases : Stmt → Bool
+  | .build p => (aliasOf p).isSome
+  | _ => false
 
 end DFV.C08
